@@ -351,12 +351,14 @@ func c17Cases(tier string) []c11Case {
 	if tier == "thorough" {
 		inc = patternLists(2, c11Patterns)
 	}
-	// hard-link groups of special files
+	// hard-link groups of special files and of symlinks
 	for _, lab := range fsmodel.Partitions(4) {
-		tf := c11Tree(lab, false, fsmodel.Fifo)
-		for _, under := range []string{"disk", "mem", "filter"} {
-			out = append(out, c11Case{Tree: tf, Under: under})
-			out = append(out, c11Case{Tree: tf, Under: under, Exclude: []string{"a/x"}})
+		for _, kind := range []fsmodel.Kind{fsmodel.Fifo, fsmodel.Symlink} {
+			tf := c11Tree(lab, false, kind)
+			for _, under := range []string{"disk", "mem", "filter", "subdir"} {
+				out = append(out, c11Case{Tree: tf, Under: under})
+				out = append(out, c11Case{Tree: tf, Under: under, Exclude: []string{"a/x"}})
+			}
 		}
 	}
 	for _, lab := range fsmodel.Partitions(4) {
